@@ -637,6 +637,64 @@ def _witness(ctx, stream, st_neq):
                expected='the sentence as written: increasing any smoothing parameter never decreases the weighted RSS', oracle='real LinearGAM fits; exact model values 2/9 -> 1/5')
 
 
+def run_extreme(ctx):
+    """one smoothing parameter far beyond the others (1e12 … 1e16 next to ordinary values): in exact arithmetic edof is
+    non-increasing along the path (theorem C13.edof_antitone) and the heavily penalised term has reached its limit long
+    before; the other terms must keep the penalty they were given — a factorization that treats small eigenvalues of the
+    WHOLE penalty as rounding noise lets them lose it"""
+    import contextlib
+    import io
+    from pygam import LinearGAM, s, f, l
+    st = 'path.extreme-ratio'
+    ctx.stream(st, 'multi-term LinearGAM, one lam swept over 1e6, 1e9, 1e12, 1e14, 1e16 with the other terms at ordinary lam: edof never rises above its value at 1e9 '
+                   '(1e-3 relative), fitted values stay at their 1e9 limit (1e-4 of the range of y)')
+    ncase = 4 if ctx.tier == 'quick' else 24
+    for k in range(ncase):
+        rng = ctx.subrng('extreme', k)
+        rs = np.random.RandomState(rng.getrandbits(32))
+        n = rng.choice([120, 200])
+        X = np.c_[rs.uniform(0, 1, n), rs.uniform(-1, 1, n), rs.randint(0, 3, n).astype(float)]
+        X[:3, 2] = [0, 1, 2]
+        y = np.sin(6 * X[:, 0]) + np.cos(4 * X[:, 1]) + 0.2 * X[:, 2] + 0.3 * rs.randn(n)
+        lam_other = rng.choice([1.0, 0.6, 0.05])
+        shape = k % 4
+        def terms(L):
+            if shape == 0:
+                return s(0, lam=L) + s(1, lam=lam_other)
+            if shape == 1:
+                return s(1, lam=lam_other, n_splines=12) + s(0, lam=L, n_splines=15) + f(2, lam=lam_other)
+            if shape == 2:
+                return s(0, lam=lam_other) + s(1, lam=L, spline_order=2, n_splines=10) + l(2, lam=lam_other)
+            return s(0, lam=L, basis='ps', penalties='l2') + s(1, lam=lam_other)
+        sig = dict(shape=shape, n=n, lam_other=lam_other)
+        ctx.case(st, sig, nontrivial=True)
+        pts = []
+        try:
+            for L in (1e6, 1e9, 1e12, 1e14, 1e16):
+                with contextlib.redirect_stdout(io.StringIO()):
+                    g = LinearGAM(terms(L), tol=1e-10).fit(X, y)
+                pts.append((L, float(g.statistics_['edof']), np.asarray(g.predict(X), dtype=float)))
+        except ValueError as e:
+            ctx.count('extreme-ratio path', 'ValueError: ' + str(e)[:40])
+            continue
+        ctx.count('extreme-ratio path', 'fitted')
+        ref = [p_ for p_ in pts if p_[0] == 1e9][0]
+        yr = float(y.max() - y.min())
+        for (L, ed, pred) in pts:
+            if L <= 1e9:
+                continue
+            bad = None
+            if ed > ref[1] + 1e-3 * (1 + ref[1]):
+                bad = 'edof rises from %.6f at lam = 1e9 to %.6f at lam = %.0e' % (ref[1], ed, L)
+            elif np.abs(pred - ref[2]).max() > 1e-4 * yr:
+                bad = 'fitted values move by %.3g (range of y %.3g) between lam = 1e9 and lam = %.0e' % (float(np.abs(pred - ref[2]).max()), yr, L)
+            if bad:
+                ctx.fail(st, dict(kind='extreme-ratio', shape=shape), dict(sig, lam=L, seed_key=k, X_seed='subrng(extreme, %d)' % k),
+                         observed=bad, expected='edof non-increasing in lam; the other terms keep their own penalty',
+                         oracle='real LinearGAM fits along the path (theorem C13.edof_antitone holds in exact arithmetic)')
+                break
+
+
 def run(ctx):
     common.import_pygam()
     st_mono, st_lit, st_cf, st_lim, st_lin = 'path.monotone', 'path.rss-literal', 'path.closed-form', 'limit.null-space', 'penalty.linear-in-lam'
@@ -822,6 +880,7 @@ def run(ctx):
     ctx.partial.append('clause "increasing any smoothing parameter never decreases the weighted RSS": proved and enforced for RSS + fixed penalties (fidelity_monotone) and for the RSS alone when nothing else is penalised (rss_monotone; sqrt(eps)-ridge slack); for the RSS alone with another penalty held fixed at a non-zero value the clause is decided as the KNOWN FINDING %s (false of every exact solver: machine-checked counter-example rss_not_monotone_in_general, reproduced on the real code in every run); every other clause (edof, limits, lam = 0) is enforced' % KNOWN_RSS)
     ctx.partial.append('the limit lam -> infinity is proved in quantitative form (squeeze, limit_distance), not as a topological limit; IEEE rounding is covered by the tolerances only')
     ctx.assumptions.append('existence of a simultaneous diagonalisation of a positive definite and a PSD matrix (C13 edof monotonicity only)')
+    run_extreme(ctx)
 
 
 def replay(ctx, rp):
